@@ -1,4 +1,5 @@
 import Proofs.IgnoreOrder
+import Proofs.HashSound
 import Model.Generated.Tables
 import Model.Hash.Prep
 /-!
@@ -10,7 +11,11 @@ What is machine-checked here:
 * in the model, for every pairing: the order-ignoring diff is empty exactly when the hash-level
   verdict holds (`C12_diff_iff_verdict`, from C05) — the verdict being equality of the sets
   (multisets) of item hashes at every list, which is what makes the two engines agree;
-* `HashSound` is the statement "an empty diff implies equal hashes" for the item hash.
+* `HashSoundOn D` is the statement "an empty diff implies equal hashes" for the item hash on a domain
+  `D`; it is **proved for the DeepHash model** (`C12_hashSound_concrete`: every hasher `H`, lists,
+  tuples, sets, dictionaries, leaves; domain = pairwise different hashable keys from a universe on
+  which `==` is identity (NoNumAlias), sets whose members hash differently, canonical floats), so
+  `C12_empty_implies_equal_deephash` and `C05_verdict_deephash` carry no hypothesis about the hash.
 The converse for the *root* hash (equal digests ⇒ equal sets of item digests) needs the
 injectivity of the hash framing (C07) and is decided on the implementation.
 -/
@@ -30,18 +35,47 @@ theorem C12_forwarded : ∀ o ∈ sharedOptions, o ∈ Gen.deephashForwarded := 
 setting and threshold, the order-ignoring diff is empty iff at every list the two sides have the
 same set of item hashes (and, with repetition reporting, the same multiplicities), dictionaries
 agree key by key and leaves are equal. -/
-theorem C12_diff_iff_verdict (c : IOCfg) (hashOf : PyVal → String) (P : Pairs) (hs : HashSound c hashOf) (hc : c.thrNum ≤ c.thrDen)
-    (a b : PyVal) : (deepDiff c hashOf P a b).tree = [] ↔ verdict c hashOf a b = true := by
+theorem C12_diff_iff_verdict (D : PyVal → Prop) (hD : Closed D) (c : IOCfg) (hashOf : PyVal → String) (P : Pairs)
+    (hs : HashSoundOn D c hashOf) (hc : c.thrNum ≤ c.thrDen) (a b : PyVal) (da : D a) (db : D b) :
+    (deepDiff c hashOf P a b).tree = [] ↔ verdict c hashOf a b = true := by
   unfold deepDiff
   split
-  · exact diffV_empty_iff c hashOf P hs hc a b []
+  · exact diffV_empty_iff D hD c hashOf P hs hc a b [] da db
   · simp only [mutualAddRemoves_nil_iff]
-    exact diffV_empty_iff c hashOf P hs hc a b []
+    exact diffV_empty_iff D hD c hashOf P hs hc a b [] da db
 
 /-- **An empty diff implies equal hashes** — for any item hash that respects the verdict. -/
-theorem C12_empty_implies_equal_hash (c : IOCfg) (hashOf : PyVal → String) (P : Pairs) (hs : HashSound c hashOf)
-    (hc : c.thrNum ≤ c.thrDen) (a b : PyVal) (h : (deepDiff c hashOf P a b).tree = []) : hashOf a = hashOf b :=
-  hs a b ((C12_diff_iff_verdict c hashOf P hs hc a b).1 h)
+theorem C12_empty_implies_equal_hash (D : PyVal → Prop) (hD : Closed D) (c : IOCfg) (hashOf : PyVal → String) (P : Pairs)
+    (hs : HashSoundOn D c hashOf) (hc : c.thrNum ≤ c.thrDen) (a b : PyVal) (da : D a) (db : D b)
+    (h : (deepDiff c hashOf P a b).tree = []) : hashOf a = hashOf b :=
+  hs a b da db ((C12_diff_iff_verdict D hD c hashOf P hs hc a b da db).1 h)
+
+/-- **HashSound holds for the DeepHash model**, for every hasher. -/
+theorem C12_hashSound_concrete (K : List PyVal) (hK : StrictK K) (c : IOCfg) (H : String → String) :
+    HashSoundOn (domV K (dh c H)) c (dh c H) :=
+  hashSound_concrete K hK c H
+
+/-- **An empty order-ignoring diff implies equal DeepHash digests** — for every pairing, hasher,
+report_repetition setting and threshold in [0,1], on the domain. -/
+theorem C12_empty_implies_equal_deephash (K : List PyVal) (hK : StrictK K) (c : IOCfg) (H : String → String) (P : Pairs)
+    (hc : c.thrNum ≤ c.thrDen) (a b : PyVal) (da : domV K (dh c H) a) (db : domV K (dh c H) b)
+    (h : (deepDiff c (dh c H) P a b).tree = []) : dh c H a = dh c H b :=
+  C12_empty_implies_equal_hash (domV K (dh c H)) (domV_closed K (dh c H)) c (dh c H) P (hashSound_concrete K hK c H) hc a b da db h
+
+/-- the verdict theorem of C05 for the DeepHash model, with no assumption left about the hash -/
+theorem C05_verdict_deephash (K : List PyVal) (hK : StrictK K) (c : IOCfg) (H : String → String) (P : Pairs)
+    (hc : c.thrNum ≤ c.thrDen) (a b : PyVal) (da : domV K (dh c H) a) (db : domV K (dh c H) b) :
+    (deepDiff c (dh c H) P a b).tree = [] ↔ verdict c (dh c H) a b = true :=
+  C12_diff_iff_verdict (domV K (dh c H)) (domV_closed K (dh c H)) c (dh c H) P (hashSound_concrete K hK c H) hc a b da db
+
+/-! Non-vacuity: a nested value of the domain (key universe `["a", "b"]`). -/
+example (H : String → String) : domV [.str "a", .str "b"] (dh {} H)
+    (.dict [(.str "a", .list [.int 1, .float 15 1, .tuple [.none]]), (.str "b", .dict [])]) := by
+  simp [domV, domP, domL, distinctKeys, keyEq, hashable, canonFloat]
+example : StrictK [.str "a", .str "b"] := by
+  intro k hk k' hk' h
+  simp at hk hk'
+  rcases hk with rfl | rfl <;> rcases hk' with rfl | rfl <;> simp_all [keyEq]
 
 /-- `ignore_repetition` is the negation of `report_repetition`, as `_get_deephash_params` sets it:
 the list verdict looks at multiplicities exactly when the hash does -/
